@@ -458,6 +458,73 @@
                 let err = (0..3).map(|k| (f64::from(got[k]) - want[k]).abs()).fold(0.0, f64::max);
                 out(inbox && err > 1e-5 * n, format!("{:?}->{:?} {:?}: got {:?} CIE {:?} err {:.3e} (allowed {:.3e})", pi, po, px, got, want, err, 1e-5 * n));
             }
+
+            // xyb fwd r g b (C04 vs the libjxl definition in f64) | xyb rt r g b (C05 round trip)
+            "xyb" => {
+                let px = [fb(&a[1]), fb(&a[2]), fb(&a[3])];
+                let am = [[0.30f64, 0.622, 0.078], [0.23, 0.692, 0.078], [0.24342268924547819, 0.20476744424496821, 0.55180986650955360]];
+                let b = 0.0037930732552754493f64;
+                if a[0] == "fwd" {
+                    let got = Xyb::from(LinearRgb::new(vec![px], 1, 1).unwrap()).data()[0];
+                    let mut lms = [0f64; 3]; let mut mixes = [0f64; 3];
+                    for i in 0..3 { let m = am[i][0] * f64::from(px[0]) + am[i][1] * f64::from(px[1]) + am[i][2] * f64::from(px[2]) + b; mixes[i] = m; lms[i] = m.max(0.0).cbrt() - b.cbrt(); }
+                    let want = [(lms[0] - lms[1]) / 2.0, (lms[0] + lms[1]) / 2.0, lms[2]];
+                    let incube = px.iter().all(|c| *c >= 0.0 && *c <= 4.0);
+                    let wellcond = px.iter().all(|c| *c >= -1.0 && *c <= 4.0) && mixes.iter().all(|m| *m <= -1e-3 || *m >= 0.05);
+                    let err = (0..3).map(|k| (f64::from(got[k]) - want[k]).abs()).fold(0.0, f64::max);
+                    out((incube || wellcond) && err > 2e-6, format!("{:?} -> XYB {:?}, libjxl definition {:?}, err {:.3e} (in domain: {})", px, got, want, err, incube || wellcond));
+                } else {
+                    let back = LinearRgb::from(Xyb::from(LinearRgb::new(vec![px], 1, 1).unwrap())).data()[0];
+                    let inr = px.iter().all(|c| *c >= 0.0 && *c <= 1.0);
+                    let err = (0..3).map(|k| (back[k] - px[k]).abs()).fold(0.0, f32::max);
+                    out(inr && err > 5e-5, format!("{:?} -> XYB -> {:?}, err {:.3e}", px, back, err));
+                }
+            }
+
+            // layout enc|dec T w h ssx ssy bd full : C11 metamorphic replay (image vs its 1x1 images; padded vs unpadded planes)
+            "layout" => {
+                let n = |i: usize| a[i].parse::<usize>().unwrap();
+                let (w, h, ssx, ssy, bd, full) = (n(2), n(3), n(4) as u8, n(5) as u8, n(6) as u8, a[7] == "1");
+                let c = cfg(bd, full, MC::BT709, ssx, ssy);
+                let c444 = cfg(bd, full, MC::BT709, 0, 0);
+                let pat = |i: usize, k: usize| -> f32 { (((i * 37 + k * 101 + 13) % 97) as f32) / 96.0 };
+                let mut bad = Vec::new();
+                fn run<T: Pixel>(a0: &str, w: usize, h: usize, ssx: u8, ssy: u8, bd: u8, c: YuvConfig, c444: YuvConfig, pat: &dyn Fn(usize, usize) -> f32, bad: &mut Vec<String>) {
+                    let maxv = (1u32 << bd) - 1;
+                    if a0 == "enc" {
+                        let data: Vec<[f32; 3]> = (0..w * h).map(|i| [pat(i, 0), pat(i, 1), pat(i, 2)]).collect();
+                        let img = Yuv::<T>::try_from((&Rgb::new(data.clone(), w, h, TC::BT1886, CP::BT709).unwrap(), c)).unwrap();
+                        if img.width() != w || img.height() != h || img.data()[1].cfg.width != w >> ssx || img.data()[1].cfg.height != h >> ssy { bad.push("dimensions".to_string()); }
+                        let one = |i: usize| { let y = Yuv::<T>::try_from((&Rgb::new(vec![data[i]], 1, 1, TC::BT1886, CP::BT709).unwrap(), c444)).unwrap(); [y.data()[0].p(0, 0), y.data()[1].p(0, 0), y.data()[2].p(0, 0)] };
+                        for y in 0..h { for x in 0..w { if img.data()[0].p(x, y) != one(y * w + x)[0] { bad.push(format!("luma ({},{})", x, y)); } } }
+                        for cy in 0..(h >> ssy) { for cx in 0..(w >> ssx) {
+                            let mut ok = false;
+                            for dy in 0..(1usize << ssy) { for dx in 0..(1usize << ssx) { let o = one(((cy << ssy) + dy) * w + (cx << ssx) + dx); if o[1] == img.data()[1].p(cx, cy) && o[2] == img.data()[2].p(cx, cy) { ok = true; } } }
+                            if !ok { bad.push(format!("chroma ({},{}) matches no pixel of its block", cx, cy)); }
+                        } }
+                    } else {
+                        // same picture in planes with different padding (so different strides/origins): results must agree with the 1x1 decodes
+                        for (pu, pv) in [(0usize, 0usize), (0, 3), (3, 0), (5, 2)] {
+                            let (cw, ch) = (w >> ssx, h >> ssy);
+                            let mut f: Frame<T> = Frame { planes: [Plane::new(w, h, 0, 0, pu, pv), Plane::new(cw, ch, ssx as usize, ssy as usize, pu, pu), Plane::new(cw, ch, ssx as usize, ssy as usize, pv, pv)] };
+                            let val = |i: usize, k: usize| T::cast_from(((pat(i, k) * maxv as f32) as u32).min(maxv) as u16);
+                            for y in 0..h { for x in 0..w { let o = f.planes[0].cfg.xorigin + (f.planes[0].cfg.yorigin + y) * f.planes[0].cfg.stride + x; f.planes[0].data[o] = val(y * w + x, 0); } }
+                            for k in 1..3 { for y in 0..ch { for x in 0..cw { let o = f.planes[k].cfg.xorigin + (f.planes[k].cfg.yorigin + y) * f.planes[k].cfg.stride + x; f.planes[k].data[o] = val(y * cw + x, k); } } }
+                            let yuv = Yuv::new(f, c).unwrap();
+                            let img = Rgb::try_from(&yuv).unwrap();
+                            if img.width() != w || img.height() != h || img.data().len() != w * h { bad.push("dimensions".to_string()); continue; }
+                            for y in 0..h { for x in 0..w {
+                                let (cx, cy) = (x >> ssx, y >> ssy);
+                                let one = Rgb::try_from(&Yuv::new(Frame { planes: [Plane::from_slice(&[val(y * w + x, 0)], 1), Plane::from_slice(&[val(cy * cw + cx, 1)], 1), Plane::from_slice(&[val(cy * cw + cx, 2)], 1)] }, c444).unwrap()).unwrap().data()[0];
+                                let g = img.data()[y * w + x];
+                                if (0..3).any(|k| g[k].to_bits() != one[k].to_bits()) { bad.push(format!("pixel ({},{}) with chroma padding ({},{})", x, y, pu, pv)); }
+                            } }
+                        }
+                    }
+                }
+                if a[1] == "u8" { run::<u8>(&a[0], w, h, ssx, ssy, bd, c, c444, &pat, &mut bad); } else { run::<u16>(&a[0], w, h, ssx, ssy, bd, c, c444, &pat, &mut bad); }
+                out(!bad.is_empty(), format!("{} {}x{} ss({},{}): {}", a[0], w, h, ssx, ssy, if bad.is_empty() { "pointwise/layout ok".to_string() } else { bad[..bad.len().min(4)].join("; ") }));
+            }
             _ => { eprintln!("unknown replay kind {}", kind); std::process::exit(64); }
         }
     }
